@@ -498,6 +498,10 @@ func (t *tr) loopHead(k int, pos token.Pos, body func(), alias map[string]*Var) 
 		sc.loop = k
 		for n, av := range alias {
 			sc.vars[n] = t.readIn(t.cur.Env, av)
+			if sc.bound == nil {
+				sc.bound = map[string]bool{}
+			}
+			sc.bound[n] = true
 		}
 		_ = entryOld
 		return sc
@@ -604,6 +608,7 @@ func (t *tr) rangeStmt(x *ast.RangeStmt) {
 	k := t.loopOrd
 	label := t.pendingLabel
 	t.pendingLabel = ""
+	t.rangeColl[k] = coll
 	// hidden index
 	idxVar := t.newVar(fmt.Sprintf("range_idx$%d", k), SInt, types.Typ[types.Int], false)
 	var n Term
@@ -635,6 +640,16 @@ func (t *tr) rangeStmt(x *ast.RangeStmt) {
 	}
 	if kind == "seq" || kind == "int" {
 		t.assign(idxVar, intLit(0))
+	}
+	var visited *Var
+	var entryDom Term
+	if kind == "map" {
+		m := XT.Underlying().(*types.Map)
+		ks := t.V.W.sortOf(m.Key())
+		visited = t.newVar(fmt.Sprintf("range_visited$%d", k), arrSort(ks, SBool), types.NewArray(types.Typ[types.Bool], 0), false)
+		t.assign(visited, Term{S: fmt.Sprintf("((as const %s) false)", arrSort(ks, SBool)), Sort: arrSort(ks, SBool)})
+		dom, _, _ := t.mapHeaps(m)
+		entryDom = sel(t.read(dom), coll)
 	}
 	var lc *loopCtx
 	setKV := func(key, val Term, haveVal bool) {
@@ -679,12 +694,21 @@ func (t *tr) rangeStmt(x *ast.RangeStmt) {
 			}
 		case "map":
 			m := XT.Underlying().(*types.Map)
+			dom, val, _ := t.mapHeaps(m)
 			bs := t.fork(2)
 			exit = bs[1]
+			// exit: every key of the entry domain that is still present has been visited
+			t.cur = exit
+			if t.cur != nil {
+				t.qcount++
+				kq := Term{S: fmt.Sprintf("k$r%d", t.qcount), Sort: t.V.W.sortOf(m.Key())}
+				stillThere := and(sel(entryDom, kq), sel(sel(t.read(dom), coll), kq))
+				t.assume(or(eq(coll, intLit(0)), forallT([]Term{kq}, implies(stillThere, sel(t.read(visited), kq)))))
+			}
 			t.cur = bs[0]
 			kv := t.havocTerm("rangekey", m.Key())
-			dom, val, _ := t.mapHeaps(m)
-			t.assume(and(neq(coll, intLit(0)), sel(sel(t.read(dom), coll), kv)))
+			t.assume(and(neq(coll, intLit(0)), sel(sel(t.read(dom), coll), kv), not(sel(t.read(visited), kv))))
+			t.assign(visited, store(t.read(visited), kv, tTrue))
 			v := sel(sel(t.read(val), coll), kv)
 			v.T = m.Elem()
 			t.assume(t.typeInv(v, v.T, t.cur.Env))
